@@ -1,4 +1,6 @@
-#define H_CNT1(name, call) void h_##name(void) { struct counter_array *c; size_t w_i = nondet_size_t(); ghost_g = nondet_size_t(); call; CANARY(); }
+#define H_WIT() do { w_bytes = nondet_unsigned(); w_val_i = nondet_unsigned(); w_val_j = nondet_unsigned(); w_val_g = nondet_unsigned(); \
+    w_size = nondet_size_t(); w_c09 = nondet_size_t(); w_c17 = nondet_size_t(); } while (0)
+#define H_CNT1(name, call) void h_##name(void) { struct counter_array *c; size_t w_i = nondet_size_t(); ghost_g = nondet_size_t(); H_WIT(); call; CANARY(); }
 H_CNT1(cnt_expand8to16, counter_array__expand8to16(c, w_i))
 H_CNT1(cnt_expand16to32, counter_array__expand16to32(c, w_i))
 H_CNT1(cnt_shrink16to8, counter_array__shrink16to8(c, w_i))
@@ -11,4 +13,4 @@ H_CNT1(cnt_isZeroBeforeIncrement, counter_array__isZeroBeforeIncrement(c, w_i))
 H_CNT1(cnt_isPositiveAfterDecrement, counter_array__isPositiveAfterDecrement(c, w_i))
 H_CNT1(cnt_expand, counter_array__expand(c, w_i))
 H_CNT1(cnt_shrink, counter_array__shrink(c, w_i))
-void h_cnt_swap(void) { struct counter_array *c; size_t w_i = nondet_size_t(), w_j = nondet_size_t(); ghost_g = nondet_size_t(); counter_array__swap(c, w_i, w_j); CANARY(); }
+void h_cnt_swap(void) { struct counter_array *c; size_t w_i = nondet_size_t(), w_j = nondet_size_t(); ghost_g = nondet_size_t(); H_WIT(); counter_array__swap(c, w_i, w_j); CANARY(); }
